@@ -1365,6 +1365,10 @@ func (en *Engine) NilTasks(n, q, rounds int) {
 			nils = append(nils, t)
 			if res := r.Push(t, l); res != "ok" {
 				r.Violation("progress: PushTask(nil, %d) returned %s", l, res)
+			} else {
+				// a nil task cannot record its own start: it is entered here, at acceptance (the context is live, it
+				// will be taken); that the lane really dealt with it is checked below through Status()
+				r.MarkNilRan(t)
 			}
 		}
 		// the lane has dealt with them when nothing is pending and LastPanic shows the dereference
@@ -1374,9 +1378,6 @@ func (en *Engine) NilTasks(n, q, rounds int) {
 			r.Violation("nil-task: %d nil tasks accepted (one per lane): PendingTask=%d LastPanic id=%d (want 0 and the nil-dereference panic) after %v", n, p, lp, LiveBound)
 			en.Shutdown(r, false)
 			return
-		}
-		for _, t := range nils {
-			r.MarkNilRan(t)
 		}
 		// ordinary tasks on the same lanes
 		var ts []*Task
